@@ -386,4 +386,80 @@ theorem encode_isSome (env : Env) (x : Ext) (h : x.WF env) : ∃ bs, encode x = 
   simp only [encode, encRaw, asRaw, hn, hd, encVecArr, hah, encVecVec, hc, hrh, h5, h6, h7, h8, Option.map_some]
   exact ⟨_, rfl⟩
 
+/-! ### an accepted length prefix is THE canonical one -/
+
+theorem decLen_canonical (bs : Bytes) (hb : isBytes bs = true) (n k : Nat) (rest : Bytes)
+    (h : decLen bs = some (n, k, rest)) :
+    ∃ hdr, encLen n = some hdr ∧ bs = hdr ++ rest ∧ k = hdr.length := by
+  cases bs with
+  | nil => simp [decLen] at h
+  | cons b0 r =>
+    simp only [isBytes, List.all_cons, Bool.and_eq_true, decide_eq_true_eq] at hb
+    obtain ⟨hb0, hr⟩ := hb
+    unfold decLen at h
+    simp only at h
+    by_cases t0 : b0 / 64 = 0
+    · rw [if_pos t0] at h
+      have hv : b0 % 64 = b0 := by omega
+      have hm : minLenLen (b0 % 64) = 1 := by unfold minLenLen; rw [if_pos (by omega)]
+      rw [if_pos hm] at h
+      simp only [Option.some.injEq, Prod.mk.injEq] at h
+      obtain ⟨rfl, rfl, rfl⟩ := h
+      refine ⟨[b0], ?_, ?_, rfl⟩
+      · unfold encLen; rw [if_pos (by omega)]; rw [hv]
+      · rfl
+    · rw [if_neg t0] at h
+      by_cases t1 : b0 / 64 = 1
+      · rw [if_pos t1] at h
+        cases r with
+        | nil => simp at h
+        | cons b1 r' =>
+          simp only [List.all_cons, Bool.and_eq_true, decide_eq_true_eq] at hr
+          obtain ⟨hb1, _⟩ := hr
+          simp only at h
+          by_cases hm : minLenLen (b0 % 64 * 256 + b1) = 2
+          · rw [if_pos hm] at h
+            simp only [Option.some.injEq, Prod.mk.injEq] at h
+            obtain ⟨rfl, rfl, rfl⟩ := h
+            have hge : ¬ (b0 % 64 * 256 + b1 < 64) := by
+              intro c; unfold minLenLen at hm; rw [if_pos c] at hm; omega
+            have hlt : b0 % 64 * 256 + b1 < 16384 := by omega
+            refine ⟨[b0, b1], ?_, rfl, rfl⟩
+            unfold encLen; rw [if_neg hge, if_pos hlt]
+            have e1 : 64 + (b0 % 64 * 256 + b1) / 256 = b0 := by omega
+            have e2 : (b0 % 64 * 256 + b1) % 256 = b1 := by omega
+            rw [e1, e2]
+          · rw [if_neg hm] at h; cases h
+      · rw [if_neg t1] at h
+        by_cases t2 : b0 / 64 = 2
+        · rw [if_pos t2] at h
+          match r, hr, h with
+          | b1 :: b2 :: b3 :: r', hr, h =>
+            simp only [List.all_cons, Bool.and_eq_true, decide_eq_true_eq] at hr
+            obtain ⟨hb1, hb2, hb3, _⟩ := hr
+            simp only at h
+            by_cases hm : minLenLen (((b0 % 64 * 256 + b1) * 256 + b2) * 256 + b3) = 4
+            · rw [if_pos hm] at h
+              simp only [Option.some.injEq, Prod.mk.injEq] at h
+              obtain ⟨rfl, rfl, rfl⟩ := h
+              have hge : ¬ (((b0 % 64 * 256 + b1) * 256 + b2) * 256 + b3 < 16384) := by
+                intro c; unfold minLenLen at hm
+                by_cases c0 : ((b0 % 64 * 256 + b1) * 256 + b2) * 256 + b3 < 64
+                · rw [if_pos c0] at hm; omega
+                · rw [if_neg c0, if_pos c] at hm; omega
+              have hge0 : ¬ (((b0 % 64 * 256 + b1) * 256 + b2) * 256 + b3 < 64) := by omega
+              have hlt : ((b0 % 64 * 256 + b1) * 256 + b2) * 256 + b3 < 1073741824 := by omega
+              refine ⟨[b0, b1, b2, b3], ?_, rfl, rfl⟩
+              unfold encLen; rw [if_neg hge0, if_neg hge, if_pos hlt]
+              have e1 : 128 + (((b0 % 64 * 256 + b1) * 256 + b2) * 256 + b3) / 16777216 = b0 := by omega
+              have e2 : (((b0 % 64 * 256 + b1) * 256 + b2) * 256 + b3) / 65536 % 256 = b1 := by omega
+              have e3 : (((b0 % 64 * 256 + b1) * 256 + b2) * 256 + b3) / 256 % 256 = b2 := by omega
+              have e4 : (((b0 % 64 * 256 + b1) * 256 + b2) * 256 + b3) % 256 = b3 := by omega
+              rw [e1, e2, e3, e4]
+            · rw [if_neg hm] at h; cases h
+          | [], _, h => simp at h
+          | [_], _, h => simp at h
+          | [_, _], _, h => simp at h
+        · rw [if_neg t2] at h; cases h
+
 end MdkVerif.Codec
